@@ -291,7 +291,11 @@ Definition Inv (n : node) (es : list rentry) : Prop :=
   (exists sn, from_entries es = RS (term n) (voted n) sn (log n)) /\ contig (log n).
 
 Definition wf_step (s : step_in) : Prop :=
-  match s with Append _ _ prev_i _ ents _ => ents_from prev_i ents | _ => True end.
+  match s with
+  | Append _ _ prev_i _ ents _ => ents_from prev_i ents
+  | InstallSnap _ ents _ => ents_from 0 ents      (* a snapshot holds a complete log from index 1 *)
+  | _ => True
+  end.
 
 Lemma from_entries_app es w : from_entries (es ++ w) = fold_left rec_step w (from_entries es).
 Proof. unfold from_entries. apply fold_left_app. Qed.
@@ -475,6 +479,25 @@ Proof.
   - inversion H; subst. reflexivity.
   - destruct (role n =? LEADER); inversion H; subst; cbn [term voted]; [|reflexivity].
     apply tv_after_logrec_full.
+  - (* InstallSnap *)
+    destruct (negb accepted); [inversion H; subst; reflexivity|].
+    assert (G: forall n1 w1, tv_after w1 (term n) (voted n) = (term n1, voted n1) ->
+               (let '(l1, w2) := append_entries (log n1) ents in
+                let '(l2, w3) := if llen ents <? llen l1 then (firstn (length ents) l1, [LogTruncate (llen ents + 1)]) else (l1, []) in
+                (Node (term n1) (voted n1) l2 (role n1) (votes n1), w1 ++ w2 ++ w3, [1])) = (n', w, out) ->
+               tv_after w (term n) (voted n) = (term n', voted n')).
+    { intros n1 w1 E1 H1. destruct (append_entries (log n1) ents) as [l1 w2] eqn:E2.
+      assert (OL: forall e, In e (w2 ++ (if llen ents <? llen l1 then [LogTruncate (llen ents + 1)] else [])) ->
+                  match e with LogEntryFull _ _ _ | LogTruncate _ => True | _ => False end).
+      { intros e He. apply in_app_or in He as [He|He].
+        - apply (AE_only_log ents (log n1)). rewrite E2. exact He.
+        - destruct (llen ents <? llen l1); [destruct He as [<-|[]]; exact I|destruct He]. }
+      destruct (llen ents <? llen l1); inversion H1; subst; cbn [term voted];
+        rewrite tv_after_app, E1; cbn [fst snd]; apply tv_after_only_log; exact OL. }
+    destruct (N.ltb_spec (term n) lit) as [Hlt|Hge].
+    + apply (G (Node lit None (log n) (role n) (votes n)) [TermAndVote lit None]); [|exact H].
+      cbn [term voted]. apply tv1_gt. exact Hlt.
+    + apply (G n []); [reflexivity|exact H].
 Qed.
 
 (* ======================================================================== *)
@@ -508,6 +531,29 @@ Proof.
   split; [exact A1|]. split; [exact A3|].
   intros q q' Hq. destruct (A4 q q' Hq) as (j & J1 & J2 & J3).
   split; [apply (firstn_min_eq _ _ _ j J2 J1)|exact J3].
+Qed.
+
+Lemma cp_firstn_r a : forall b m, (cp a (firstn m b) <= cp a b)%nat.
+Proof.
+  induction a as [|x a IH]; intros [|y b] [|m]; cbn; try lia.
+  destruct (lentry_eqb x y); [specialize (IH b m); lia|lia].
+Qed.
+(* a log record sequence followed by cutting the resulting log behind its first m entries *)
+Lemma log_clause_cut l l1 w m : log_clause l l1 w -> (m < length l1)%nat ->
+  log_clause l (firstn m l1) (w ++ [LogTruncate (N.of_nat m + 1)]).
+Proof.
+  intros (C1 & E & P) Hm.
+  assert (C2: contig (firstn m l1)) by (apply contig_firstn; exact C1).
+  assert (EL: log_after (w ++ [LogTruncate (N.of_nat m + 1)]) l = firstn m l1).
+  { rewrite log_after_app, E. rewrite log_after_trunc by (try exact C1; lia).
+    replace (N.to_nat (N.of_nat m + 1 - 1)) with m by lia. reflexivity. }
+  split; [exact C2|]. split; [exact EL|].
+  intros q q' Hq.
+  destruct q' as [|x q'] using rev_ind.
+  - rewrite app_nil_r in Hq. subst q. rewrite EL. split; [symmetry; apply cp_firstn_eq|exact C2].
+  - clear IHq'. rewrite app_assoc in Hq. apply app_inj_tail in Hq as [Hq _].
+    destruct (P q q' Hq) as [P1 P2]. split; [|exact P2].
+    apply (firstn_min_eq _ _ _ (cp l l1)); [exact P1|apply cp_firstn_r].
 Qed.
 
 Lemma step_log n s n' w out : contig (log n) -> wf_step s -> step n s = (n', w, out) ->
@@ -590,6 +636,29 @@ Proof.
     cbn [app] in Hq. inversion Hq; subst r. destruct q; [|discriminate].
     rewrite log_after_full by (auto; reflexivity). unfold log_after. cbn [fold_left r_log].
     split; [symmetry; apply cp_firstn_eq|exact Ce].
+  - (* InstallSnap *)
+    cbn [wf_step] in Wf.
+    destruct (negb accepted); [inversion H; subst; apply log_clause_same; [exact C|apply NIL]|].
+    assert (LC: log_clause (log n) (fst (append_entries (log n) ents)) (snd (append_entries (log n) ents)))
+      by (apply (log_clause_AE _ _ 0); [exact C|exact Wf|lia]).
+    assert (G: forall n1 w1, log n1 = log n -> (w1 = [] \/ exists t v, w1 = [TermAndVote t v]) ->
+               (let '(l1, w2) := append_entries (log n1) ents in
+                let '(l2, w3) := if llen ents <? llen l1 then (firstn (length ents) l1, [LogTruncate (llen ents + 1)]) else (l1, []) in
+                (Node (term n1) (voted n1) l2 (role n1) (votes n1), w1 ++ w2 ++ w3, [1])) = (n', w, out) ->
+               log_clause (log n) (log n') w).
+    { intros n1 w1 El Hw1 H1. rewrite El in H1.
+      destruct (append_entries (log n) ents) as [l1 w2] eqn:E2. cbn [fst snd] in LC.
+      assert (LC2: log_clause (log n) (log n') (w2 ++ (if llen ents <? llen l1 then [LogTruncate (llen ents + 1)] else []))
+                   /\ w = w1 ++ w2 ++ (if llen ents <? llen l1 then [LogTruncate (llen ents + 1)] else [])).
+      { destruct (N.ltb_spec (llen ents) (llen l1)) as [Hlt|Hge]; inversion H1; subst; cbn [log]; (split; [|reflexivity]).
+        - unfold llen. apply log_clause_cut; [exact LC|]. unfold llen in Hlt. lia.
+        - rewrite app_nil_r. exact LC. }
+      destruct LC2 as [LC2 ->].
+      destruct Hw1 as [->|(t0 & v0 & ->)]; [exact LC2|]. cbn [app]. apply log_clause_tv_cons. exact LC2. }
+    destruct (term n <? lit).
+    + apply (G (Node lit None (log n) (role n) (votes n)) [TermAndVote lit None]); [reflexivity| |exact H].
+      right. eexists. eexists. reflexivity.
+    + apply (G n []); [reflexivity|left; reflexivity|exact H].
 Qed.
 
 (* ======================================================================== *)
